@@ -37,6 +37,7 @@ var (
 	reSnap   = regexp.MustCompile(`^snapshot-([0-9A-F]+)\.gbsnap$`)
 	reGen    = regexp.MustCompile(`^snapshot-([0-9A-F]+)-[0-9A-F]+\.generating$`)
 	reRecv   = regexp.MustCompile(`^snapshot-([0-9A-F]+)-[0-9A-F]+\.receiving$`)
+	reExt    = regexp.MustCompile(`^external-file-([0-9]+)$`)
 )
 
 func hexIdx(s string) string {
@@ -75,6 +76,9 @@ func fileClass(name string) string {
 	if m := reShrunk.FindStringSubmatch(name); len(m) == 2 {
 		return "shrunk:" + hexIdx(m[1])
 	}
+	if m := reExt.FindStringSubmatch(name); len(m) == 2 {
+		return "other:" + m[1]
+	}
 	return "other:" + name
 }
 
@@ -88,7 +92,7 @@ func classKey(c string) string {
 		idx, _ = strconv.ParseUint(p[1], 10, 64)
 	}
 	if p[0] == "other" {
-		return fmt.Sprintf("9 %s", c)
+		return fmt.Sprintf("9 %020d %s", idx, c)
 	}
 	if p[0] == "flag" || p[0] == "meta" {
 		return fmt.Sprintf("8 %d", rank)
@@ -421,6 +425,8 @@ type world struct {
 	rec       uint64
 	disk      *diskState
 	node      *hk8.Node
+	proxy     *nodeProxy
+	dead      bool
 	lastPanic string
 }
 
@@ -552,16 +558,65 @@ func chunksOf(index uint64, n uint64) []pb.Chunk {
 	return out
 }
 
+// extBytes is the content of the external file: its own length, then filler.
+func extBytes(m uint64) []byte {
+	if m < 1 {
+		m = 1
+	}
+	b := make([]byte, 48*m+16)
+	for i := range b {
+		b[i] = byte(i * 3)
+	}
+	binary.LittleEndian.PutUint64(b, uint64(len(b)))
+	return b
+}
+
+// withExternalFile appends the chunks of external-file-1 (m chunks) the way
+// transport.getChunks does: after the snapshot file, chunk ids continuing.
+func withExternalFile(cs []pb.Chunk, index uint64, m uint64) []pb.Chunk {
+	if m < 1 {
+		m = 1
+	}
+	data := extBytes(m)
+	per := len(data) / int(m)
+	sf := pb.SnapshotFile{FileId: 1, Filepath: "/leader/external-file-1", FileSize: uint64(len(data)), Metadata: []byte{9}}
+	base := cs[0]
+	start := uint64(len(cs))
+	for i := uint64(0); i < m; i++ {
+		part := data[int(i)*per:]
+		if i != m-1 {
+			part = data[int(i)*per : int(i+1)*per]
+		}
+		c := base
+		c.ChunkId = start + i
+		c.FileChunkId = i
+		c.FileChunkCount = m
+		c.ChunkSize = uint64(len(part))
+		c.Filepath = sf.Filepath
+		c.FileSize = sf.FileSize
+		c.HasFileInfo = true
+		c.FileInfo = sf
+		c.Data = append([]byte(nil), part...)
+		cs = append(cs, c)
+	}
+	for i := range cs {
+		cs[i].ChunkCount = uint64(len(cs))
+	}
+	return cs
+}
+
 type command struct {
-	kind string
-	i, n uint64
+	kind    string
+	i, n, m uint64
 }
 
 func (c command) String() string {
 	switch c.kind {
 	case "SAVE", "RECV":
 		return fmt.Sprintf("%s %d %d", c.kind, c.i, c.n)
-	case "RESTART", "CRASH":
+	case "RECVX":
+		return fmt.Sprintf("%s %d %d %d", c.kind, c.i, c.n, c.m)
+	case "RESTART", "CRASH", "DSAVE":
 		return c.kind
 	}
 	return fmt.Sprintf("%s %d", c.kind, c.i)
@@ -575,6 +630,9 @@ func parseCommand(s string) command {
 	}
 	if len(f) > 2 {
 		c.n, _ = strconv.ParseUint(f[2], 10, 64)
+	}
+	if len(f) > 3 {
+		c.m, _ = strconv.ParseUint(f[3], 10, 64)
 	}
 	return c
 }
@@ -614,13 +672,16 @@ func (w *world) do(c command) (outcome string) {
 			default:
 				outcome = "ok"
 			}
-		case "RECV":
+		case "RECV", "RECVX":
 			if c.i == 0 {
 				outcome = "skip"
 				return
 			}
 			delete(w.delivered, c.i)
 			cs := chunksOf(c.i, c.n)
+			if c.kind == "RECVX" {
+				cs = withExternalFile(cs, c.i, c.m)
+			}
 			last := false
 			for _, ch := range cs {
 				last = w.chunks.Add(ch)
@@ -667,6 +728,10 @@ func (w *world) do(c command) (outcome string) {
 			outcome = "ok"
 		case "RECOVER":
 			outcome = w.recoverLive(c.i)
+		case "ENTRIES":
+			outcome = w.applyEntries(c.i)
+		case "DSAVE":
+			outcome = w.saveOnDisk()
 		case "RESTART":
 			w.newChunks()
 			if err := w.snap.VerifProcessOrphans(); err != nil {
@@ -787,6 +852,13 @@ func (w *world) observe() []dirObs {
 				}
 			case strings.HasPrefix(fc, "snap:") || strings.HasPrefix(fc, "shrunk:"):
 				o.files[fc] = snapState(w.mem, fp)
+			case strings.HasPrefix(fc, "other:") && reExt.MatchString(f):
+				b := readAll(w.mem, fp)
+				if len(b) >= 8 && binary.LittleEndian.Uint64(b) == uint64(len(b)) {
+					o.files[fc] = "full"
+				} else {
+					o.files[fc] = "bad"
+				}
 			default:
 				o.files[fc] = "?"
 			}
@@ -835,6 +907,11 @@ func cleanVerdict(t []dirObs, rec uint64) string {
 			}
 			if _, ok := d.files["flag"]; ok {
 				return fmt.Sprintf("flag file left in %s", d.class)
+			}
+			for k, v := range d.files {
+				if strings.HasPrefix(k, "other:") && v == "bad" {
+					return fmt.Sprintf("recorded snapshot %d: external file %s does not have its full length", idx, k)
+				}
 			}
 		case strings.HasPrefix(d.class, "gen:") || strings.HasPrefix(d.class, "recv:"):
 			return "temporary directory " + d.class + " remains"
